@@ -27,6 +27,9 @@ type Fragment struct {
 	// Compounds are multi-token primaries of weight 1 (self-delimiting: calls or
 	// parenthesised expressions), e.g. the erroring sub-expressions of C11.
 	Compounds [][]model.Tok
+	// SubCompounds are multi-token items of weight 1 usable both as primaries and
+	// after a dot (function calls such as type(@)).
+	SubCompounds [][]model.Tok
 	Nums    []model.Tok   // NUM usable as index
 	Slices  [][]model.Tok // token sequences allowed between '[' and ']' as slices
 	Cmps    []model.Tok
@@ -259,6 +262,15 @@ func (g *Gen) gen(n gnt, w int) []string {
 		if f.Star {
 			if s, sw := g.fx(model.STAR); sw == w {
 				out = append(out, s)
+			}
+		}
+		if w == 1 {
+			for _, c := range f.SubCompounds {
+				body := ""
+				for _, t := range c {
+					body += g.sym(t)
+				}
+				out = append(out, body)
 			}
 		}
 		if n == gPrimary {
